@@ -127,7 +127,7 @@ theorem allowedSelf_model (m : MembershipAllower) :
           >>= fun jr =>
           if (((m.joinRule == b!"restricted" || m.joinRule == b!"knock_restricted") && jr == b!"public")
               || m.oldMember.membership == b!"invite" || m.oldMember.membership == b!"join"
-              || (m.oldMember.membership == b!"leave" && jr == b!"public")) = true then .ok () else notAllowed
+              || jr == b!"public") = true then .ok () else notAllowed
       else if (m.newMember.membership == b!"leave") = true then
         (if (m.oldMember.membership == b!"join" || m.oldMember.membership == b!"invite" || m.oldMember.membership == b!"knock") = true
          then .ok () else notAllowed)
@@ -146,8 +146,7 @@ theorem allowedSelf_model (m : MembershipAllower) :
           cases (m.joinRule == b!"restricted" || m.joinRule == b!"knock_restricted") <;>
           cases jr == b!"public" <;>
           cases m.oldMember.membership == b!"invite" <;>
-          cases m.oldMember.membership == b!"join" <;>
-          cases m.oldMember.membership == b!"leave" <;> rfl
+          cases m.oldMember.membership == b!"join" <;> rfl
         · rfl
 
 theorem authorisedJoin_nil {d i} (h : (i.new.authorisedVia == []) = true) : authorisedJoin d i = false := by
@@ -162,13 +161,11 @@ theorem ruleJoin_atoms (i : MemberInputs) :
         (if (i.c.joinRule == b!"restricted" || i.c.joinRule == b!"knock_restricted") = true then
            i.sv.restricted && (i.old.membership == b!"invite" || i.old.membership == b!"join" || authorisedJoin lib i)
          else
-           (i.old.membership == b!"invite" || i.old.membership == b!"join"
-            || (i.c.joinRule == b!"public" && i.old.membership == b!"leave")))) := by
+           (i.old.membership == b!"invite" || i.old.membership == b!"join" || i.c.joinRule == b!"public"))) := by
   unfold ruleJoin restrictedApplies inviteLikeRule MemberInputs.joinRule
-  have hu1 : lib.u1_invitedJoinsAnyRule = true := rfl
-  have hu2 : lib.u2_publicJoinFromLeaveOnly = true := rfl
+  have hu1 : lib.d16_invitedJoinsAnyRule = true := rfl
   have hd9 : lib.d9_knockRestrictedEarly = true := rfl
-  simp only [hu1, hu2, hd9, Bool.true_or, Bool.and_true, Bool.not_true, Bool.false_or, Bool.true_and, bne]
+  simp only [hu1, hd9, Bool.true_or, Bool.and_true, Bool.not_true, Bool.false_or, Bool.true_and, bne]
   by_cases hR : (i.c.joinRule == b!"restricted" || i.c.joinRule == b!"knock_restricted") = true
   · simp only [hR, if_true]
     simp only [Bool.or_eq_true] at hR
@@ -176,7 +173,7 @@ theorem ruleJoin_atoms (i : MemberInputs) :
   · have hR' : (i.c.joinRule == b!"restricted" || i.c.joinRule == b!"knock_restricted") = false := by simpa using hR
     simp only [hR', Bool.false_eq_true, if_false]
     cases i.selfSent <;> cases (i.old.membership == b!"ban") <;> cases (i.old.membership == b!"invite") <;>
-    cases (i.old.membership == b!"join") <;> cases (i.c.joinRule == b!"public") <;> cases (i.old.membership == b!"leave") <;>
+    cases (i.old.membership == b!"join") <;> cases (i.c.joinRule == b!"public") <;>
     cases (i.c.joinRule == b!"invite") <;> cases (i.sv.knock && i.c.joinRule == b!"knock") <;> rfl
 
 theorem allowedSelf_join {m i row} (h : Rel m i row) (hself : i.selfSent = true)
@@ -218,7 +215,7 @@ theorem allowedSelf_join {m i row} (h : Rel m i row) (hself : i.selfSent = true)
     · have hR' : (i.c.joinRule == b!"restricted" || i.c.joinRule == b!"knock_restricted") = false := by simpa using hR
       simp only [hR', Bool.false_eq_true, if_false, pure_bind', Bool.false_and, Bool.false_or]
       cases (i.old.membership == b!"invite") <;> cases (i.old.membership == b!"join") <;>
-      cases (i.c.joinRule == b!"public") <;> cases (i.old.membership == b!"leave") <;> simp
+      cases (i.c.joinRule == b!"public") <;> simp
 
 theorem checkKnocking_eq {m i row} (h : Rel m i row) (old : Bytes) :
     accepts (checkKnockingAllowed m.row m.joinRule old) =
@@ -336,15 +333,21 @@ theorem allowedOther_eq {m i row} (h : Rel m i row) (hself : i.selfSent = false)
 
 /-! ### `memberEventAllowed` -/
 
-theorem bind_tp (p : Provider) (nm : MemberContent) (x : R Nat) (k : Nat → R Unit)
-    (hx : x = match thirdPartyKeys p nm with
+/-- the third-party-invite keys the model loads: only for invites that carry a `third_party_invite` block -/
+def tpKeysFor (p : Provider) (nm : MemberContent) : Option Nat :=
+  match nm.thirdPartyInvite with
+  | none => some 0
+  | some _ => if nm.membership != b!"invite" then some 0 else thirdPartyKeys p nm
+
+theorem bind_tp (tk : Option Nat) (x : R Nat) (k : Nat → R Unit)
+    (hx : x = match tk with
       | some n => .ok n
       | none => notAllowed) :
-    accepts (x >>= k) = (match (motive := Option Nat → Option Bool) thirdPartyKeys p nm with
+    accepts (x >>= k) = (match (motive := Option Nat → Option Bool) tk with
       | some n => accepts (k n)
       | none => some false) := by
   subst hx
-  cases thirdPartyKeys p nm <;> rfl
+  cases tk <;> rfl
 
 theorem bind_opt {α} (su : Option α) (x : R α) (k : α → R Unit)
     (hx : x = match su with
@@ -413,23 +416,40 @@ theorem member_eq (c : Ctx) (p : Provider) (hf : Fresh p c) (e : Event) (sig : B
     rcases memberFromProvider_cases p e.sender hsnd with ⟨sm, hsm⟩ | hsm
     case inr => simp [hom, hsm, membershipOf_na hsm, membershipOf_ok hom]
     simp only [hom, hsm, membershipOf_ok hom, membershipOf_ok hsm, ok_bind, notAllowed_bind]
-    refine Eq.trans (bind_tp p nm _ _ ?_) ?_
-    · unfold thirdPartyKeys
+    refine Eq.trans (bind_tp (tpKeysFor p nm) _ _ ?_) ?_
+    · unfold tpKeysFor thirdPartyKeys
       cases nm.thirdPartyInvite with
       | none => rfl
       | some s =>
         simp only
-        cases p.thirdPartyInvite s.token with
-        | none => rfl
-        | some tpe =>
-          simp only [Option.bind_some]
-          cases decodeThirdPartyInviteKeys tpe.content <;> rfl
-    · cases htp : thirdPartyKeys p nm with
+        by_cases hinv : (nm.membership != b!"invite") = true
+        · simp only [hinv, if_true]; rfl
+        · simp only [hinv, if_false, Bool.false_eq_true]
+          cases p.thirdPartyInvite s.token with
+          | none => rfl
+          | some tpe =>
+            simp only [Option.bind_some]
+            cases decodeThirdPartyInviteKeys tpe.content <;> rfl
+    · cases htp : tpKeysFor p nm with
       | none =>
-        have hu6 : lib.u6_strayThirdPartyKey = true := rfl
-        simp [hu6]
+        -- an invite naming a third-party invite for which there is no usable m.room.third_party_invite event
+        simp only
+        unfold tpKeysFor at htp
+        cases htpi : nm.thirdPartyInvite with
+        | none => rw [htpi] at htp; cases htp
+        | some s =>
+          rw [htpi] at htp
+          simp only at htp
+          by_cases hinv : (nm.membership != b!"invite") = true
+          · simp [hinv] at htp
+          · simp only [hinv, if_false, Bool.false_eq_true] at htp
+            have hnj : nm.membership = b!"invite" := by simpa using hinv
+            have : ruleMemberDecision lib (MemberInputs.mk c p e sv target nm om sm sig) = false := by
+              unfold ruleMemberDecision ruleFirstJoin ruleThirdPartyInvite
+              simp [htpi, hnj, htp]
+            simp [this]
       | some tpKeys =>
-        simp only [Option.isSome_some, Bool.or_true, Bool.true_and]
+        simp only
         by_cases hroom : (c.create.roomID != e.roomID) = true
         · have : ruleCreatePresent c e = false := by
             unfold ruleCreatePresent
@@ -449,15 +469,20 @@ theorem member_eq (c : Ctx) (p : Provider) (hf : Fresh p c) (e : Event) (sig : B
               { c := c, p := p, e := e, sv := sv, target := target, new := nm, old := om, snd := sm, sig3pid := sig }) _ _ ?_) ?_
           · unfold federateSubject resolveUser userOf
             have hd14 : lib.d14_pseudoIDs = true := rfl
-            have hu7 : lib.u7_mxidMappingAllVersions = true := rfl
-            simp only [hd14, hu7, Bool.true_or, Bool.and_true, if_true]
+            simp only [hd14, Bool.true_and]
             cases hmm : nm.mxidMappingUserID with
             | some uid =>
               rw [hmm] at hmx
               simp only at hmx ⊢
-              cases hp : parseUserID? uid with
-              | none => simp [hp] at hmx
-              | some o => cases o <;> rfl
+              by_cases hv : (e.ver == b!"org.matrix.msc4014") = true
+              · simp only [hv, if_true]
+                cases hp : parseUserID? uid with
+                | none => simp [hp] at hmx
+                | some o => cases o <;> rfl
+              · simp only [hv, if_false, Bool.false_eq_true]
+                cases hp : parseUserID? e.sender with
+                | none => simp [hp] at hs
+                | some o => cases o <;> rfl
             | none =>
               simp only
               cases hp : parseUserID? e.sender with
@@ -533,7 +558,12 @@ theorem member_eq (c : Ctx) (p : Provider) (hf : Fresh p c) (e : Event) (sig : B
                         rw [hinew, hitarget]
                         have hip : i.p = p := by subst hi; rfl
                         have hisig : i.sig3pid = sig := by subst hi; rfl
-                        rw [hip, hisig, htp]
+                        have htp' : thirdPartyKeys p nm = some tpKeys := by
+                          unfold tpKeysFor at htp
+                          rw [htpi] at htp
+                          have : (nm.membership != b!"invite") = false := by simpa using hinv
+                          simpa [this] using htp
+                        rw [hip, hisig, htp']
                         simp only [hd7, Bool.true_or, Bool.and_true]
                         by_cases hmx2 : target = s.mxid
                         · simp only [hmx2, bne_self_eq_false, Bool.false_eq_true, if_false, beq_self_eq_true, Bool.true_and]
